@@ -386,6 +386,28 @@ func (e *daemonEngine) checkChain(n *dNode, plan *CheckPlan) {
 	n.mu.Unlock()
 	e.rec.Count("probe:check_chain_runs", 1)
 	e.rec.Ev("check_chain_end", n.addr, "err=%v reported=%d puts=%v", cerr, reported, puts)
+	if mem {
+		// the ring right after the repair: still its newest rounds, one after the other
+		if bp := e.bp(n, "default"); bp != nil && bp.VerifHandler() != nil {
+			var rounds []uint64
+			_ = bp.VerifHandler().Store().Cursor(chainCtxFor(cc), func(ctx context.Context, c chain.Cursor) error {
+				for b, err := c.First(ctx); b != nil && err == nil; b, err = c.Next(ctx) {
+					rounds = append(rounds, b.Round)
+				}
+				return nil
+			})
+			if len(rounds) > 1 && rounds[0] == 0 && rounds[1] != 1 {
+				rounds = rounds[1:]
+			}
+			for k := 1; k < len(rounds); k++ {
+				if rounds[k] != rounds[k-1]+1 {
+					e.rec.Violate("C02", "gap-in-stored-chain", "ring-after-repair", "node %s: after the chain check its in-memory ring holds %v", n.addr, rounds)
+					break
+				}
+			}
+			e.rec.Count("probe:ring_scanned_after_repair", 1)
+		}
+	}
 	if !gotReport || mem {
 		return
 	}
